@@ -235,6 +235,10 @@ void set_replay_decisions(const std::vector<uint32_t> *d) { W.replay = d; W.dpos
 const std::vector<uint32_t> &decisions() { return W.dec; }
 
 int spawn(std::function<void()> fn, const char *name, int kind) {
+    if (W.cur < 0 && !W.tasks.empty()) {     // between phases: forget finished tasks
+        bool all_done = true; for (Task *o : W.tasks) if (o->st != T_DONE) all_done = false;
+        if (all_done) { for (Task *o : W.tasks) { if (o->stack) stack_pool.push_back(o->stack); delete o; } W.tasks.clear(); }
+    }
     Task *t = new Task();
     t->id = (int) W.tasks.size(); t->kind = kind; t->name = name; t->fn = std::move(fn);
     t->stack = stack_get((uint64_t) t->id + 1);
